@@ -298,7 +298,11 @@ def is_structural_atom(a):
 def extra_guards(prog, b, bb, recognised, assume=()):
     """guard atoms dominating block bb that are neither structural nor accepted by one of the `recognised` predicates"""
     out = []
-    for a in G.guard_atoms(b, bb, prog, assume):
+    atoms = G.guard_atoms(b, bb, prog, assume)
+    lowered = set((a[1][0], a[2]) for a in atoms if a[0] == "lowered")
+    for a in atoms:
+        if a[0] == "lowered" or (a[0] == "bool" and (a[1][0], a[2]) in lowered):
+            continue
         if is_structural_atom(a):
             continue
         if any(r(a) for r in recognised):
